@@ -379,7 +379,7 @@ pub fn run_c12(ctx: Ctx) -> ! {
     if let Some(p) = ctx.replay.clone() {
         let j = vp_core::read_replay_case(&p);
         let mut rep = Report::default();
-        if crate::seqchain::replay(&j["case"], &mut rep) {
+        if crate::seqchain::replay(&j["case"], &mut rep) || crate::optout::replay(&j["case"], &mut rep) {
             emit(&ctx, &mut rep);
             ctx.finish("exploration", json!({"evaluations": 1, "distinct_nontrivial": 2, "rule": "replay of one sequence chain", "samples": [j["case"].clone()], "exhaustive": true}), vec![]);
         }
@@ -395,6 +395,7 @@ pub fn run_c12(ctx: Ctx) -> ! {
     let work = build_work(&ctx);
     let mut rep = run_all(&work, c12_case);
     crate::seqchain::run_all(&mut rep);
+    crate::optout::run_all(&mut rep);
     let cpu = cpu_seconds() - t0;
     let checked = rep.total("outputs_checked");
     if checked == 0 {
@@ -405,6 +406,7 @@ pub fn run_c12(ctx: Ctx) -> ! {
     let coverage = json!({
         "evaluations": rep.total("cases"),
         "distinct_nontrivial": rep.outcome_hashes.len(),
+        "omitted_optional_outputs": "TopK, DynamicQuantizeLinear, Dropout, MaxPool(Indices), LayerNormalization, Split with every non-empty subset of their outputs kept (the others have empty names); per_operator entry 'omitted-outputs'",
         "sequence_chains": "SequenceEmpty(dtype|absent)/SequenceConstruct -> SequenceInsert -> SequenceAt / SequenceLength / ConcatFromSequence / SequenceErase for every (sequence element type, inserted tensor type) pair over {f32,i32,i64,u8,i8,bool}; per_operator entry 'sequence-chains'",
         "rule": "every catalogue case (same enumeration as C15, plus type-changing and sequence operators); after each successful Model::run the operator's output_types() rules are resolved against the actual operator input types (constants of the graph and run-time inputs) and compared with the ValueType of every produced output; additionally infer_shapes(graph).types for the graph outputs is compared with the produced types",
         "exhaustive": true,
